@@ -115,7 +115,10 @@ MANIFEST = {
             "vdiff-dupinst). when: Implicit.v has no when; the statement 'defaults exactly where the when holds' "
             "is checked by the oracle when-defaults against a python reference on a fixed family of modules (XPath limited to "
             "three condition shapes; lyd_validate_module is driven through impl/t_valid.c, which returns no change set); two deviations "
-            "found there are listed (when-stale-dependency - fixed by 7b3176d, now expected by the reference -, when-autodel-default-case) - Since 7b3176d the resolution of the when "
+            "found there are listed (when-stale-dependency, implicit-api-when-order, parse-when-before-toplevel-default - fixed by "
+            "7b3176d / 6d13b8c / 3ea8124, the fixed behaviour is now expected -, when-autodel-default-case and implicit-api-phase-order still open; the latter - a "
+            "default resolved in an earlier phase of lyd_new_implicit_module is not re-evaluated when a later phase creates a "
+            "node its when reads - is followed by the whenres runner phase by phase and flagged by no check) - Since 7b3176d the resolution of the when "
             "conditions no longer depends on flags of earlier validations, and that step is modelled and proved on its own: "
             "coq/WhenRes.v is the fixpoint of lyd_validate_unres_when on a flat abstraction (world = present (node, value) "
             "entries; set of queued (node, was-true-before); a condition is postponed while a node it reads is queued, true -> "
@@ -125,10 +128,15 @@ MANIFEST = {
             "(C07_when_resolution_terminates), the resulting tree - or the rejection - does not depend on the order of the set "
             "(C07_when_resolution_order_independent, via: a successful run ends in the unique stable solution, and if a stable "
             "solution exists every order finds it), resolving the survivors again changes nothing "
-            "(C07_when_resolution_idempotent); C07_when_resolution_generic states it for arbitrary condition functions. Tie: "
-            "component whenres runs generated dependency graphs (leaves with defaults and whens over presence / value of "
-            "smaller-numbered leaves, and / or / not) x edit histories through lyd_new_path / lyd_free_tree / lyd_validate_all "
-            "and the extracted wrun: same surviving nodes, values, default flags, same rejections. NOT in WhenRes.v: the "
+            "(C07_when_resolution_idempotent), resolving in phases - first one set, then another on the resulting world - equals "
+            "one resolution of both when no condition of the first phase reads a node of the second "
+            "(C07_when_resolution_phases); C07_when_resolution_generic states it for arbitrary condition functions. Tie: "
+            "component whenres runs generated dependency graphs (leaves that are top-level nodes or children of a container, "
+            "with defaults and whens over presence / value of smaller-numbered leaves on either level, and / or / not) x edit "
+            "histories through lyd_new_path / lyd_free_tree and the two entries lyd_validate_all (all present conditional "
+            "nodes queued, one run) and lyd_new_implicit_all (only the nodes it created, all was-true, in the phases nested / "
+            "top-level / nested / nested that lyd_new_implicit_module per context module amounts to) and the extracted wrun: "
+            "same surviving nodes, values, default flags, same rejections. NOT in WhenRes.v: the "
             "subtree of a deleted node, choices / cases (finding when-autodel-default-case), the interplay with "
             "lyd_new_implicit beyond 'missing defaults are created first and queued as was-true' (done by the OCaml runner), "
             "the connection of this layer with Implicit.validate_all (no combined theorem). lyd_new_implicit_tree / _module are only reached through "
